@@ -193,6 +193,9 @@ func flagRate(prop, flag string) int {
 	}
 	// flags whose effect is a (known) chain halt or a corrupted parameter set belong to the
 	// properties that are about exactly that; elsewhere they would only end runs early
+	if flag == "denomchange" && prop == "C02" {
+		return 8 // the chain halts on it (known finding of C14); what C02 watches is what gets minted
+	}
 	if flag == "denomchange" && prop != "C14" {
 		return 0
 	}
@@ -304,8 +307,19 @@ func NewRun(prop string, seed int64, tier string) (*Trace, *Gen) {
 	if (prop == "C09" || prop == "C15") && g.pct(3) {
 		// more registrations than any paged helper returns at once, injected through genesis
 		k.ManyRegs = 101 + r.Intn(40)
-		k.StartWrk, k.StartBeacon = uint64(k.ManyRegs)+1, uint64(k.ManyRegs)+1
+	} else if (prop == "C07" || prop == "C08" || prop == "C09") && g.pct(5) {
+		// a few registrations from genesis, the first one owned by an actor (upper-case spelling)
+		k.ManyRegs = 2 + r.Intn(4)
+		k.GenesisRegUpper = true
+	}
+	if k.ManyRegs > 0 {
+		// the identifier counter may start beyond the last registration of the document
+		gap := uint64(k.ManyRegs%3) * 5
+		k.StartWrk, k.StartBeacon = uint64(k.ManyRegs)+1+gap, uint64(k.ManyRegs)+1+gap
 		k.BigReg = nil
+	}
+	if prop == "C06" && g.pct(25) {
+		k.RefMinGas = "0.000001" + Native
 	}
 	k.GovSecs = int64(10 + r.Intn(50))
 	if g.Flags["huge"] {
@@ -962,7 +976,11 @@ func (g *Gen) regMsg(w *World, kind string) MsgSpec {
 	if len(ids) == 0 || x < 15 {
 		owner := g.actor()
 		if kind == "wrk" {
-			return MsgSpec{T: "wrk.register", A: owner, S: []string{g.regStr(64), g.regStr(128), g.regStr(66), pick(g.R, []string{"geth", "cosmos", "tendermint", "", " geth"})}}
+			gh := g.regStr(66)
+			if g.pct(12) {
+				gh = "" // a genesis hash is optional
+			}
+			return MsgSpec{T: "wrk.register", A: owner, S: []string{g.regStr(64), g.regStr(128), gh, pick(g.R, []string{"geth", "cosmos", "tendermint", "", " geth"})}}
 		}
 		return MsgSpec{T: "bcn.register", A: owner, S: []string{g.regStr(64), g.regStr(128)}}
 	}
@@ -1377,6 +1395,9 @@ func (g *Gen) nestTx(w *World) []TxSpec {
 	}
 	w.Fault("nest.exec")
 	depth := 1 + g.R.Intn(3)
+	if g.pct(8) {
+		depth = pick(g.R, []int{4, 6, 7, 8, 12})
+	}
 	if g.pct(60) {
 		// self-exec: the named party executes its own message through the wrapper
 		cur := m
